@@ -119,7 +119,8 @@ pub fn main(args: &[String]) {
         for _ in 0..cnt {
           let a = NAMES[rng.below(NAMES.len())];
           let b = NAMES[rng.below(NAMES.len())];
-          if a != b {
+          // a rename of a module onto itself is a legal request too (1 in 4 of the a == b draws)
+          if a != b || rng.chance(1, 4) {
             pairs.push(json!([a, b]));
           }
         }
